@@ -1,0 +1,36 @@
+//go:build verif
+
+package corebgp
+
+import (
+	"context"
+	"net"
+	"net/netip"
+)
+
+// Verification hooks, compiled in only with the "verif" build tag. They give
+// an external test harness (1) a seam to replace the outbound dialer so that
+// the outbound FSM can run on an in-memory network, and (2) named schedule
+// points at which the harness may delay the calling goroutine.
+
+// VerifDialFunc replaces the net.Dialer used by the outbound FSM.
+type VerifDialFunc func(ctx context.Context, local, remote netip.Addr, port int) (net.Conn, error)
+
+var (
+	verifDial    VerifDialFunc
+	verifPointFn func(name string)
+)
+
+// VerifSetDial installs (or with nil removes) the dial replacement. It must
+// not be called while any Server is running.
+func VerifSetDial(fn VerifDialFunc) { verifDial = fn }
+
+// VerifSetPoint installs (or with nil removes) the schedule point callback.
+// It must not be called while any Server is running.
+func VerifSetPoint(fn func(name string)) { verifPointFn = fn }
+
+func verifPoint(name string) {
+	if fn := verifPointFn; fn != nil {
+		fn(name)
+	}
+}
